@@ -188,6 +188,11 @@ def targeted_cases(rng, tier):
                                              fc.WriteOp("close")], name="redundant-newrg")
     out.append(c)
     out.append(fc.Case(fc.Schema([col, fc.Column("y", "BYTE_ARRAY")]), opt(100), [fc.WriteOp("close")], name="no-rows-2col"))
+    # 6b. a column index outside the schema (INVALID_ARGUMENT, nothing else happens): no table, the tie compares statuses
+    out.append(fc.Case(fc.Schema([col]), opt(100), [fc.WriteOp("batch", 5, [i32(1)]), fc.WriteOp("batch", 0, r2), fc.WriteOp("close")],
+                       name="badcol-first"))
+    out.append(fc.Case(fc.Schema([col]), opt(100), [fc.WriteOp("batch", 0, r2), fc.WriteOp("batch", 1, [i32(1)]), fc.WriteOp("new_row_group"),
+                                                    fc.WriteOp("batch", 0, r2), fc.WriteOp("close")], name="badcol-mid"))
     # 7. several columns: interleaved calls, column 0 written last, row groups of different sizes
     sch = fc.Schema([fc.Column("a", "INT32"), fc.Column("b", "BYTE_ARRAY", "OPTIONAL"), fc.Column("c", "BOOLEAN", "OPTIONAL"),
                      fc.Column("d", "DOUBLE")])
@@ -409,7 +414,9 @@ def model_line(case):
         t.append(f"{c.name.encode().hex() or '-'}:{TYPE_TOK[c.ptype]}:{'O' if c.rep == 'OPTIONAL' else 'R'}:{c.type_length}")
     for op in case.ops:
         if op.kind == "batch":
-            col = case.schema.columns[op.col]
+            if op.col < 0:
+                return None                   # (the model's column index is a nat; the driver passes it as int32)
+            col = case.schema.columns[op.col] if op.col < len(case.schema.columns) else fc.Column("?", "INT32")
             vals = [r for r in op.rows if r is not None]
             if op.nodefs:
                 defs = "-"
